@@ -108,6 +108,8 @@ class Explorer:
             n = t["f"].get("name")
             if n in CMP_METHODS and len(t["a"]) == 2 and mir.callee_matches(t, r"cmp::Partial(Ord|Eq)"):
                 return ("cmp", CMP_METHODS[n], _origin_key(b, t["a"][0], self.view), _origin_key(b, t["a"][1], self.view))
+            if n == "not" and mir.callee_matches(t, r"anyhow::__private::not") and t["a"] and t["a"][0][0] in ("copy", "move") and not t["a"][0][1]["p"]:
+                return ("not", self._describe_local(t["a"][0][1]["l"], depth + 1))
             recv = _origin_key(b, t["a"][0], self.view) if t["a"] else ""
             rest = tuple(_origin_key(b, a, self.view) for a in t["a"][1:])
             return ("call", n or "indirect", recv) + ((rest,) if rest else ())
